@@ -275,11 +275,14 @@ impl<Mod: Modulation, Dec: DecoderFactory> BerTest<Mod, Dec> {
             })
             .take(self.num_workers)
             .collect::<Vec<_>>();
+            // Drop our copy of the sender so that recv() fails, instead of
+            // blocking forever, if all the workers have died.
+            drop(results_tx);
 
             let mut current_statistics = CurrentStatistics::new(self.bch_max_errors > 0);
             while current_statistics.errors_for_termination() < self.max_frame_errors {
-                match results_rx.recv().unwrap() {
-                    Ok(result) => {
+                match results_rx.recv() {
+                    Ok(Ok(result)) => {
                         current_statistics.ldpc.bit_errors += result.bit_errors;
                         current_statistics.ldpc.frame_errors += u64::from(result.frame_error);
                         current_statistics.false_decodes += u64::from(result.false_decode);
@@ -299,7 +302,9 @@ impl<Mod: Modulation, Dec: DecoderFactory> BerTest<Mod, Dec> {
                             }
                         }
                     }
-                    Err(()) => break,
+                    // A worker has returned an error or all the workers
+                    // have died
+                    Ok(Err(())) | Err(_) => break,
                 }
                 report!(self, current_statistics, ebn0_db, false);
             }
@@ -313,8 +318,10 @@ impl<Mod: Modulation, Dec: DecoderFactory> BerTest<Mod, Dec> {
 
             let mut join_error = None;
             for (handle, _) in workers.into_iter() {
-                if let Err(e) = handle.join().unwrap() {
-                    join_error = Some(e);
+                match handle.join() {
+                    Ok(Ok(())) => (),
+                    Ok(Err(e)) => join_error = Some(e),
+                    Err(_) => join_error = Some("BER worker thread panicked".into()),
                 }
             }
             if let Some(e) = join_error {
